@@ -8,6 +8,7 @@
 pub mod ledger;
 pub mod par;
 pub mod rat;
+pub mod summary;
 pub mod tlc;
 
 use serde::Serialize;
